@@ -135,3 +135,29 @@ Fixpoint run_flat (fuel : nat) (l : slist) (a : list N) : list N :=
 
 (* ENTRY 162 entry_sellist *)
 Definition entry_sellist (args : list N) : list N := run_flat (S (length args)) [] args.
+
+(* ---- the members as the loop of _setSelectorText sees them (for the statement of all-or-nothing) *)
+Fixpoint split_loop (fuel : nat) (ts : list tok) (acc : list (list tok)) (e : lexp) : list (list tok) * lexp :=
+  match fuel with
+  | O => (acc, LInit)
+  | S fu =>
+    let (seltoks, rest) := upto_comma ts 0 0 0 [] in
+    match seltoks with
+    | [] => (acc, e)
+    | _ =>
+      let lastv := val (last seltoks (mkTok T_EOF [] 0 0)) in
+      if str_eqb lastv s_comma then split_loop fu rest (removelast seltoks :: acc) LComma
+      else split_loop fu rest (seltoks :: acc) LNone
+    end
+  end.
+(* member token lists in source order, and whether the text ended properly (not empty, no trailing ',') *)
+Definition members (ts : list tok) : list (list tok) * bool :=
+  let (acc, e) := split_loop (S (length ts)) ts [] LInit in
+  (rev acc, match e with LNone => true | _ => false end).
+
+Fixpoint all_some {A} (l : list (option A)) : option (list A) :=
+  match l with
+  | [] => Some []
+  | None :: _ => None
+  | Some x :: r => match all_some r with Some r' => Some (x :: r') | None => None end
+  end.
